@@ -6,7 +6,7 @@
     revset and the by-line matching of every (commit, edge target) pair are inputs; their
     validity ([inputs_ok]: edges point to ancestors, hunks ascend and pair equal lines) is
     decidable, is a hypothesis of the theorems and is checked on every case. *)
-From Verif Require Import Base.Prelude Base.DagR Model.C38 Proofs.C38 Proofs.C38Case.
+From Verif Require Import Base.Prelude Base.DagR Model.C38 Proofs.C38 Proofs.C38Case Proofs.C38Strict.
 Local Open Scope nat_scope.
 
 Section Statements.
@@ -55,23 +55,32 @@ Section Statements.
     exact (proj1 (proj2 (proj2 (proj2 (proj2 (prop_ok_spec c _ _ (model_ok c Hin))) s o H)))).
   Qed.
 
-  (** An unresolved ([Err]) origin is the target of a missing edge — a commit outside the
-      searched range — or the starting commit itself. *)
-  Theorem C38_unresolved_outside : forall s o, nth_error (model_origins c) s = Some o ->
-    o_ok o = false ->
-    o_commit o = start \/
+  (** An unresolved ([Err]) origin is the target of a missing edge — a commit OUTSIDE the
+      searched range (never the placeholder naming the start): when the recorded stream is
+      closed ([stream_okb]: distinct nodes, missing targets are not nodes, every non-missing
+      edge target appears later, the start is a node), the early exit of [process_commits]
+      never leaves a commit of the domain pending.  Holds for the code after the repair
+      (fix 26901e2 in /repo); see [C38_unresolved_outside_old_refuted] for the behaviour
+      before it. *)
+  Theorem C38_unresolved_outside : stream_okb c = true ->
+    forall s o, nth_error (model_origins c) s = Some o -> o_ok o = false ->
     exists nd e, In nd (case_nodes c) /\ In e (snd nd) /\ is_missing e = true /\
                  fst e = o_commit o.
   Proof.
-    intros s o H.
-    exact (proj2 (proj2 (proj2 (proj2 (proj2 (prop_ok_spec c _ _ (model_ok c Hin))) s o H)))).
+    intros Hs s o H Hk. assert (Hst := model_strict_ok c Hs).
+    unfold strict_ok in Hst. rewrite forallb_forall in Hst.
+    specialize (Hst o (nth_error_In _ _ H)). rewrite Hk in Hst. cbn [orb] in Hst.
+    apply existsb_exists in Hst. destruct Hst as [nd [Hnd He]].
+    apply existsb_exists in He. destruct He as [e [He Hm]]. apply andb_true_iff in Hm.
+    destruct Hm as [Hm Hf]. apply Nat.eqb_eq in Hf. exists nd, e. auto.
   Qed.
 End Statements.
 
 (** All of the above at once, in the form the per-case checker uses. *)
-Theorem C38_model_ok : forall c : case, inputs_ok c = true ->
-  prop_ok c (model_origins c) (case_text c (N.to_nat (c_start c))) = true.
-Proof. exact model_ok. Qed.
+Theorem C38_model_ok : forall c : case, inputs_ok c = true -> stream_okb c = true ->
+  prop_ok c (model_origins c) (case_text c (N.to_nat (c_start c))) = true /\
+  strict_ok c (model_origins c) = true.
+Proof. intros c H1 H2. split; [now apply model_ok|now apply model_strict_ok]. Qed.
 
 (** Meaning of the checker [okb] on the implementation's [line_origins()] / [text()]
     ([okb] additionally requires [strict_ok]: no unresolved origin names the start). *)
@@ -95,21 +104,26 @@ Proof.
 Qed.
 
 Theorem C38_checker_strict : forall c : case, okb c = true ->
-  forall o, In o (case_origins c) -> o_ok o = false -> o_commit o <> N.to_nat (c_start c).
+  forall o, In o (case_origins c) -> o_ok o = false ->
+  exists nd e, In nd (case_nodes c) /\ In e (snd nd) /\ is_missing e = true /\
+               fst e = o_commit o.
 Proof.
   intros c H o Hin Hk. unfold okb in H. apply andb_true_iff in H. destruct H as [_ H].
   unfold strict_ok in H. rewrite forallb_forall in H. specialize (H o Hin).
-  rewrite Hk in H. cbn in H. apply negb_true_iff in H. now apply Nat.eqb_neq in H.
+  rewrite Hk in H. cbn [orb] in H.
+  apply existsb_exists in H. destruct H as [nd [Hnd He]].
+  apply existsb_exists in He. destruct He as [e [He Hm]]. apply andb_true_iff in Hm.
+  destruct Hm as [Hm Hf]. apply Nat.eqb_eq in Hf. exists nd, e. auto.
 Qed.
 
-(** KNOWN FINDING (class [known_class], "annotate-unresolved-root-counted-twice").  The
-    strict reading of the last clause — an unresolved origin always points OUTSIDE the
-    searched range — is false of the faithful model and of the code.  Witness (recorded from
-    the real [FileAnnotator], harness seed 1 index 55): p (omitted) has the children q, c2 and
-    c1 = merge(p, q); start = merge(c1, c2); domain = p..start.  The omitted parent p is
-    counted twice in [num_unresolved_roots], the loop of [process_commits] stops while q (in
-    the domain, and the commit that introduced line "q1") is still pending, and that line
-    keeps the initial placeholder [Err (start, 1)]. *)
+(** FIXED FINDING (annotate-unresolved-root-counted-twice, /repo fix 26901e2).  Before the
+    repair an omitted parent was counted in [num_unresolved_roots] once per missing edge
+    reaching it ([old = true] in the model), so [process_commits] could stop while a commit
+    inside the domain was still pending.  Witness (recorded from the real [FileAnnotator]
+    before the repair; also corpus case 0 of the harness): p (omitted) has the children q, c2
+    and c1 = merge(p, q); start = merge(c1, c2); domain = p..start.  With the old counting
+    the line "q1", introduced by q (a node of the searched graph), keeps the placeholder
+    [Err (start, 1)]; with the repaired counting it is blamed on q. *)
 Definition C38_witness : case :=
   mk_case [[]; [0]; [1]; [1]; [1; 2]; [4; 3]]%N
     [hex ""; hex "6c300a6c310a6c320a6c330a"; hex "6c300a71310a6c320a6c330a";
@@ -119,18 +133,18 @@ Definition C38_witness : case :=
     [(5, [(4, 0); (3, 0)]); (4, [(1, 2); (2, 0)]); (3, [(1, 2)]); (2, [(1, 2)])]%N
     [((5, 4), [(0, 0, 2); (3, 3, 1)]); ((5, 3), [(2, 2, 2)]); ((4, 1), [(2, 2, 2)]);
      ((4, 2), [(1, 1, 3)]); ((3, 1), [(0, 0, 2); (3, 3, 1)]); ((2, 1), [(0, 0, 1); (2, 2, 2)])]%N
-    [(true, 4, 0); (false, 5, 1); (true, 3, 2); (false, 1, 3)]%N
+    [(true, 4, 0); (true, 2, 1); (true, 3, 2); (false, 1, 3)]%N
     (hex "6331300a71310a6332320a6c330a").
-Theorem C38_unresolved_outside_refuted :
-  inputs_ok C38_witness = true /\
+Theorem C38_unresolved_outside_old_refuted :
+  inputs_ok C38_witness = true /\ stream_okb C38_witness = true /\
+  shared_omitted_parent C38_witness = true /\
+  (* before the repair: the placeholder survives, the strict clause fails *)
+  nth_error (model_origins_old C38_witness) 1 = Some (mk_origin false 5 1) /\
+  strict_ok C38_witness (model_origins_old C38_witness) = false /\
+  (* after the repair: the line is blamed on q, the whole property holds *)
+  nth_error (model_origins C38_witness) 1 = Some (mk_origin true 2 1) /\
   model_origins C38_witness = case_origins C38_witness /\
-  nth_error (model_origins C38_witness) 1 = Some (mk_origin false 5 1) /\
-  strict_ok C38_witness (model_origins C38_witness) = false /\
-  known_class C38_witness = true /\
-  (* the line was introduced by commit 2 (q), a node of the searched graph: it is there at
-     line 1, and unmatched by q's diff with its only edge target *)
-  nth_error (case_text C38_witness 2) 1 = nth_error (case_text C38_witness 5) 1 /\
-  in_ranges 1 (case_matching C38_witness 2 1) = false.
+  okb C38_witness = true.
 Proof. repeat split; vm_compute; reflexivity. Qed.
 
 (** The line-splitting of the hunks is an exact partition: the lines kept by the current
@@ -162,5 +176,6 @@ Example C38_nonvacuous :
 Proof. repeat split; vm_compute; reflexivity. Qed.
 
 Print Assumptions C38_model_ok.
+Print Assumptions C38_unresolved_outside.
 Print Assumptions C38_not_from_parent.
 Print Assumptions C38_checker_spec.
